@@ -51,6 +51,45 @@ def reformatFasta (o : ReformatOpts) (dealign : Bool) (recs : List Rec) : List R
 def reformatAfa (o : ReformatOpts) (recs : List Rec) : List Rec :=
   recs.mapIdx fun i r => renameRec o i { r with seq := r.seq.map (convChar o true) }
 
+/-- `--mingap` (drop the columns that are gaps in every row) / `--nogap` (drop the columns that contain any gap);
+    gap characters are `-_.~`, decided on the input before any residue conversion -/
+def keepColumns (nogap : Bool) (rows : List (List Char)) : List Bool :=
+  let alen := (rows.headD []).length
+  (List.range alen).map fun c =>
+    if nogap then rows.all fun r => !isGapC (r.getD c '-')
+    else rows.any fun r => !isGapC (r.getD c '-')
+
+def selectCols (keep : List Bool) (row : List Char) : List Char :=
+  (row.zip keep).filterMap fun p => if p.2 then some p.1 else none
+
+def dropGapColumns (nogap : Bool) (recs : List Rec) : List Rec :=
+  let keep := keepColumns nogap (recs.map (·.seq))
+  recs.map fun r => { r with seq := selectCols keep r.seq }
+
+theorem selectCols_length_le (keep : List Bool) (row : List Char) : (selectCols keep row).length ≤ row.length := by
+  simp only [selectCols]
+  exact Nat.le_trans (List.length_filterMap_le _ _) (by simp; omega)
+
+/-- all rows keep the same length after column removal (they are cut by the same mask) -/
+theorem selectCols_length_eq (keep : List Bool) (r₁ r₂ : List Char) (h : r₁.length = r₂.length) :
+    (selectCols keep r₁).length = (selectCols keep r₂).length := by
+  induction keep generalizing r₁ r₂ with
+  | nil => simp [selectCols]
+  | cons k ks ih =>
+    cases r₁ with
+    | nil =>
+      cases r₂ with
+      | nil => rfl
+      | cons b t => simp at h
+    | cons a t₁ =>
+      cases r₂ with
+      | nil => simp at h
+      | cons b t₂ =>
+        have ht : t₁.length = t₂.length := by simpa using h
+        have := ih t₁ t₂ ht
+        simp only [selectCols, List.zip_cons_cons, List.filterMap_cons] at *
+        cases k <;> simp [this]
+
 def reformatText (rs : List Rec) : String := String.ofList (renderFasta 60 rs)
 
 /-! ## lemmas -/
